@@ -523,9 +523,10 @@ def tbStmt (k : Nat) (s : TB) (ws : List String) : Option TB :=
     let sigs ← sigs.mapM parseAnySig
     -- `wait` installs the internal SIGCHLD disposition first; the child then sends the signals
     let s0 : TB := { s with st := enableChld s.st, exit := 0 }
-    -- (VirtualSystem records the last fatal signal even if the process was already terminated by an
-    --  earlier one: the child keeps sending, so the fold does not stop at the first fatal signal)
+    -- the child keeps sending; a terminated process keeps its final state (`Process::set_state`),
+    -- a stopped one can still be terminated
     let (s1, caught) := sigs.foldl (fun (acc : TB × List Nat) sig =>
+      if (acc.1.ended.getD "").startsWith "sig" then acc else
       match delivery acc.1.st sig with
       | .caught => (tbSend acc.1 sig, acc.2 ++ [sig])
       | _ => (tbSend acc.1 sig, acc.2)) (s0, [])
